@@ -77,6 +77,7 @@ CHECKS = {
         "level": "exploration",
         "tests": [
             {"pkg": "kvx", "run": "^TestC12_Model$", "quick": 2400, "thorough": 120000},
+            {"pkg": "e2ex", "run": "^TestC12_E2E$", "quick": 160, "thorough": 6000, "shards": {"quick": 8, "thorough": 16}},
         ],
         "floors": {"multi_op_one_key": 0.2, "range_over_100": 0.05},
         "rule": "rapid state machine over a real kv.DB driven through the exported callback chain used by leader and follower "
@@ -114,7 +115,7 @@ CHECKS = {
                 "node must open, BecomeLeader must replay entries c+1..head without error, a fresh database must accept the "
                 "whole decoded log, and both must end in the same state. Non-trivial there: hostile content was in the "
                 "replayed part.",
-        "assumptions": ["keys inside the reserved prefix are outside the domain", "delete-range bounds are slash-free here (ranges across reserved records belong to no listed property)"],
+        "assumptions": ["keys that themselves lie inside the reserved prefix are outside the domain (ranges that span it are inside)"],
     },
     "C16": {
         "level": "exploration",
@@ -267,6 +268,8 @@ CHECKS = {
             {"pkg": "clientx", "run": "^TestC20_Mixed$", "quick": 1200, "thorough": 100000},
             {"pkg": "clientx", "run": "^TestC20_FanOut$", "quick": 1200, "thorough": 100000},
             {"pkg": "clientx", "run": "^TestC20_SlowWrites$", "quick": 240, "thorough": 8000},
+            {"pkg": "clientx", "run": "^TestC20_AbandonedList$", "quick": 1200, "thorough": 40000},
+            {"pkg": "e2ex", "run": "^TestC20_E2E$", "quick": 160, "thorough": 6000, "shards": {"quick": 8, "thorough": 16}},
         ],
         "rule": "the real public client (oxia.NewAsyncClient, unmodified) over loopback gRPC against harness-owned fake servers "
                 "(1 bootstrap + 1-3 leaders per case, 1-6 shards): 5-80 generated calls mixing Put / Delete / DeleteRange / Get with "
@@ -282,7 +285,14 @@ CHECKS = {
                 "(correct) answer of one or two write batches for 170-260 ms while the stream stays alive and answers the "
                 "batches behind it in order; following calls are issued at once, just after the timeout, or after the stall. "
                 "Any call may end with the timeout; a call that completes successfully must carry its own answer, exactly "
-                "once. Non-trivial there: a write timed out on a live stream and a later write on that stream was answered.",
+                "once. Non-trivial there: a write timed out on a live stream and a later write on that stream was answered. "
+                "Fourth generator (TestC20_AbandonedList): a multi-shard List through the synchronous client (which stops at the "
+                "first error) with 0..all shards failing at once or mid-stream, context deadlines of 2 ms - 3 s and the usual "
+                "cancel() right after the call: an error or the exact union must come back and the process must survive. "
+                "Fifth generator (TestC20_E2E, e2ex): the real synchronous client against a real standalone server with 1-4 shards "
+                "and the sequential reference model per shard: puts / deletes / delete-ranges with option mixes (partition keys "
+                "routing the same key to different shards, conditions, secondary indexes, sequence deltas), exact and comparison "
+                "gets with and without partition key, List and RangeScan (multiset union / global key order), a server restart.",
         "assumptions": ["bounded waits: a call that does not complete within the bound makes the case inconclusive",
                         "a streaming call counts as completed once it delivered an error item"],
     },
